@@ -70,7 +70,10 @@ def run(prop, tier, seed, known):
     import numpy as np
     from mir_eval import hierarchy as Hm
     rng = random.Random(seed)
-    fails, n = [], 0
+    from ._tag import Fails
+    fails = Fails(prop, (('triplet definition', ('C17',)), ('is cut at', ('C12',)), ('hierarchy.evaluate', ('C17', 'C03')),
+                         ('tmeasure accepted', ('C17', 'C14')), ('instead of ValueError', ('C17', 'C14')), ('on a valid input', ('C17', 'C14'))))
+    n = 0
     t0 = time.time()
 
     def level(k, end):
